@@ -422,6 +422,30 @@ def resolve(model: RefDir, op):
                         'items': items, 'k': d['k'], 'nums': d['nums'] or [],
                         'spell': d['spell'] or 0, 'expect': 'reject',
                         'bad': 'wrong_dimension', 'near_miss': True}
+        if kind == 'wrong_dim_term' and r[9] % 3 == 2:
+            # dimensionally right, but no unit: two units of a type WITHOUT
+            # reference unit whose reference-less parts differ (EUR/kg and
+            # HKD/g) do not cancel - (a * d1 / d2) is not a multiple of a
+            pairs_ = []
+            for dn in model.order:
+                dt_ = model.types[dn]
+                if dt_['ref'] is not None:
+                    continue
+                us_ = [s_ for s_ in dt_['units']
+                       if model.units[s_].get('bvec') is not None]
+                for x_ in us_:
+                    for y_ in us_:
+                        if x_ != y_ and model.units[x_]['bvec'] != \
+                                model.units[y_]['bvec']:
+                            pairs_.append((x_, y_))
+            if pairs_ and model.types[tn]['ref'] is not None:
+                d1, d2 = pairs_[r[1] % len(pairs_)]
+                return {'a': 'term_unit', 'type': tn,
+                        'sym': fresh_symbol(model, 'u', n, deco),
+                        'items': [[model.types[tn]['ref'], 1], [d1, 1],
+                                  [d2, -1]], 'k': None, 'nums': [],
+                        'spell': 0, 'expect': 'reject',
+                        'bad': 'wrong_dimension', 'unconvertible': True}
         if kind == 'wrong_dim_term' and r[9] % 3 == 1:
             # a term whose units cancel (km/m, 12 * s**2 / s**2): it denotes
             # a plain number, no unit of any type
@@ -877,6 +901,24 @@ def build_clsdef(env, items, style):
     return expr
 
 
+class SymbolText(str):
+    """A symbol given as instance of a str sub-class (a StrEnum member, a
+    tagged string): still a str, taken as it is."""
+    __slots__ = ()
+
+
+def lib_sym(sym):
+    """One symbol in five is handed to the library as an instance of a str
+    sub-class (selected by a digest of its text, so every world of a run
+    does the same)."""
+    if sym is None or not sym:
+        return sym
+    import hashlib
+    if hashlib.sha256(sym.encode()).digest()[0] % 5 == 0:
+        return SymbolText(sym)
+    return sym
+
+
 def perform(env: Env, act):
     """Execute `act`; returns ('ok', info) or ('exc', class name)."""
     from quantity import QuantityMeta, Quantity
@@ -886,7 +928,7 @@ def perform(env: Env, act):
         if a == 'base_type':
             kw = {}
             if act['ref_sym'] is not None:
-                kw['ref_unit_symbol'] = act['ref_sym']
+                kw['ref_unit_symbol'] = lib_sym(act['ref_sym'])
                 kw['ref_unit_name'] = 'ref ' + act['name']
             if act['quantum'] is not None:
                 kw['quantum'] = lib_quantum(act['quantum'], len(act['name']))
@@ -901,7 +943,7 @@ def perform(env: Env, act):
             kw = {'define_as': build_clsdef(env, act['items'],
                                             act['style'])}
             if act['ref_sym'] is not None:
-                kw['ref_unit_symbol'] = act['ref_sym']
+                kw['ref_unit_symbol'] = lib_sym(act['ref_sym'])
             elif act.get('auto_ref') and act.get('style') == 1:
                 # "no symbol given" spelled as an empty string
                 kw['ref_unit_symbol'] = ''
@@ -921,7 +963,7 @@ def perform(env: Env, act):
             parent = env.units[act['parent']]
             k = lib_num(act['k'])
             q = parent * k if act['via'] == 'mul' else k * parent
-            u = cls.new_unit(act['sym'], 'unit ' + act['sym'], q)
+            u = cls.new_unit(lib_sym(act['sym']), 'unit ' + act['sym'], q)
             env.units[u.symbol] = u
             return 'ok', {}
         if a == 'term_unit' and act.get('nums'):
@@ -957,7 +999,7 @@ def perform(env: Env, act):
                     else:
                         term = Term([(k, e)]) * term
             env.terms[sig] = term
-            u = cls.new_unit(act['sym'], None, term)
+            u = cls.new_unit(lib_sym(act['sym']), None, term)
             env.units[u.symbol] = u
             return 'ok', {}
         if a == 'term_unit':
@@ -974,7 +1016,7 @@ def perform(env: Env, act):
                     from decimalfp import Decimal
                     k = Decimal(k)
                 items = [(k, 1)] + items
-            u = cls.new_unit(act['sym'], None, Term(items))
+            u = cls.new_unit(lib_sym(act['sym']), None, Term(items))
             env.units[u.symbol] = u
             return 'ok', {}
         if a == 'derive_unit':
@@ -983,12 +1025,12 @@ def perform(env: Env, act):
             if act['sym'] is None:
                 u = cls.derive_unit_from(*units)
             else:
-                u = cls.derive_unit_from(*units, symbol=act['sym'])
+                u = cls.derive_unit_from(*units, symbol=lib_sym(act['sym']))
             env.units[u.symbol] = u
             return 'ok', {'sym': u.symbol}
         if a == 'plain_unit':
             cls = env.types[act['type']]
-            u = cls.new_unit(act['sym'])
+            u = cls.new_unit(lib_sym(act['sym']))
             env.units[u.symbol] = u
             return 'ok', {}
         if a == 'table_conv':
@@ -1011,7 +1053,7 @@ def perform(env: Env, act):
                 kw['minor_unit'] = act['minor']
             if act['sf'] is not None:
                 kw['smallest_fraction'] = act['sf']
-            u = Money.new_unit(act['sym'], 'cur ' + act['sym'], **kw)
+            u = Money.new_unit(lib_sym(act['sym']), 'cur ' + act['sym'], **kw)
             env.units[u.symbol] = u
             return 'ok', {}
         if a == 'evict':
